@@ -1030,7 +1030,9 @@ fn exec_wasm_on<A: Api>(mut apps: Vec<AppOf<A>>, sym_fn: fn(&AppOf<A>, &str) -> 
                 outcome(guarded(|| app.duplicate_code(id)), |id| format!("id {}", id))
             }
             "block" => {
-                let (h, t) = (a(1).parse::<u64>().unwrap_or(0), a(2).parse::<u64>().unwrap_or(0));
+                // `block same T`: set_block with the CURRENT height and another time
+                let h = if a(1) == "same" { app.block_info().height } else { a(1).parse::<u64>().unwrap_or(0) };
+                let t = a(2).parse::<u64>().unwrap_or(0);
                 let chain_id = app.block_info().chain_id;
                 outcome(
                     guarded(|| {
